@@ -8,12 +8,16 @@ pub mod util;
 
 #[path = "c09.rs"]
 mod c09;
+#[path = "c08.rs"]
+mod c08;
 
 pub async fn main(monitor: String) -> Result<(), easy_error::Terminator> {
     let args = util::Args::parse();
     util::install_panic_hook();
     match monitor.as_str() {
         "c09" => c09::run(&args),
+        "c08" => c08::run(&args),
+        "c08depth" => c08::run_depth(&args),
         other => {
             eprintln!("unknown monitor {}", other);
             std::process::exit(3);
